@@ -2,8 +2,8 @@
    A case = initial dumps of the objects + a history; every step carries the implementation's
    observation: result, accessor events, and the dumps of the objects whose dump changed.
    c_variant selects the model the observation is compared with:
-     0 = S (the specification: the oracle)          1 = I (goja as it is, fx_none)
-     2..6 = I with exactly one repair switched on (f1, n1, n2, n3, f2)      7 = I with all repairs *)
+     0 = S (the specification: the oracle)          1 = I (goja as it is, fx_cur)
+     3 / 5 = I with the N1 / N3 repair switched on as well      7 = I with all repairs      8 = pre-fix I *)
 From Coq Require Import List Arith NArith Bool.
 Import ListNotations.
 From Verif.C04 Require Import Model.
@@ -192,15 +192,15 @@ Definition s_first_bad (c : tcase) :=
 Definition i_first_bad (fx : fixes) (c : tcase) :=
   first_bad (istep fx) (fun h => (map i_ensure h, map i_dump h)) (map iobj_of (c_init c)) (c_init c) (c_steps c) 0.
 
+(* on top of the current tree (fx_cur): 3 = N1 repaired too, 5 = N3 repaired too, 7 = everything repaired;
+   8 = the tree before the F1/F2/N2 repairs (kept to re-identify a regression) *)
 Definition fixes_of_variant (v : nat) : fixes :=
   match v with
-  | 2 => mkFixes true false false false false
-  | 3 => mkFixes false true false false false
-  | 4 => mkFixes false false true false false
-  | 5 => mkFixes false false false true false
-  | 6 => mkFixes false false false false true
+  | 3 => mkFixes true true true false true
+  | 5 => mkFixes true false true true true
   | 7 => fx_all
-  | _ => fx_none
+  | 8 => fx_none
+  | _ => fx_cur
   end.
 
 Definition case_first_bad (c : tcase) : option nat :=
@@ -220,7 +220,7 @@ Definition mismatch_ids := mismatch_from 0%N.
 
 (* printed in replays: first diverging step against S and against I, and what S says there *)
 Definition expected (c : tcase) :=
-  (s_first_bad c, i_first_bad fx_none c,
+  (s_first_bad c, i_first_bad fx_cur c,
    match s_first_bad c with
    | Some n => model_at sstep (fun h => (h, map s_dump h)) (map sobj_of (c_init c)) (c_steps c) n
    | None => None
